@@ -500,6 +500,8 @@ Proof.
     cbn in Hm; try contradiction; cbn [bind]; [|right; right; exact Hm].
   pose proof Hm as (Ht & Hri & Hs & Htg & Hf). rewrite Ht, Hri, Hs, Htg.
   destruct (Nat.eqb _ _); [|apply IH, H].
+  rewrite (get_number_sim vs _ _ _ Hf).
+  destruct (get_number vs _ (fm_fields m2)); [|apply IH, H].
   pose proof (nth_opt_sim _ _ _ H (fm_start m2)) as Hn1.
   pose proof (nth_opt_sim _ _ _ H (Nat.pred (fm_target m2))) as Hn2.
   destruct (nth_opt (ts_infos st1) (fm_start m2)), (nth_opt (ts_infos st2) (fm_start m2)); cbn in Hn1; try contradiction;
@@ -507,8 +509,6 @@ Proof.
   destruct (nth_opt (ts_infos st1) _), (nth_opt (ts_infos st2) _); cbn in Hn2; try contradiction;
     [|right; right; reflexivity].
   destruct (Nat.eqb _ _); [right; right; reflexivity|].
-  rewrite (get_number_sim vs _ _ _ Hf).
-  destruct (get_number vs _ (fm_fields m2)); [|right; right; reflexivity].
   apply fire_sim; [exact H|exact Hm|apply ui_type_field_res|apply ui_type_field_res].
 Qed.
 
